@@ -4,8 +4,8 @@
    Main results
      udfdir_inv            info_len = length(parent FID) + sum of length(len(fi)); alloc_descs[0] = info_len;
                            blocks granted (1 + sum of the returned deltas) = ceiling_div(info_len, 2048)
-     udfdir_lbr            log_block_recorded: never below the need, exact after an accepted Add, UNCHANGED
-                           by Remove (stale) ; udfdir_lbr_fresh_refuted ; udfdir_lbr_never_read
+     udfdir_lbr_fresh      log_block_recorded = ceiling_div(info_len, 2048) after every history (both
+                           add and remove assign it) ; udfdir_refused_unchanged ; udfdir_lbr_never_read
      udfdir_names          parent first, then the names duplicate-free in INSERTION order; exact
                            acceptance conditions; refused operations change nothing
      udfdir_layout         descriptor lengths / tag locations (Fid.fid_locations) / blocks of the area
@@ -117,7 +117,7 @@ Record wf (st : udfdir) (g : Z) (cs : list (list Z * bool)) : Prop := {
   wf_info : ud_info_len st = udf_fid_length 0 + Fid.zsum (map clen cs);
   wf_ad : ud_ad_len st = ud_info_len st;
   wf_g : g = ceiling_div (ud_info_len st) 2048;
-  wf_lbr : ceiling_div (ud_info_len st) 2048 <= ud_lbr st }.
+  wf_lbr : ud_lbr st = ceiling_div (ud_info_len st) 2048 }.
 
 Lemma names_of_wf st g cs : wf st g cs -> dir_names st = cs.
 Proof.
@@ -174,17 +174,10 @@ Proof.
     unfold Fid.zsum at 2. cbn [fold_right]. rewrite fid_len0. lia.
   - reflexivity.
   - rewrite (wf_g _ _ _ W). lia.
-  - lia.
+  - reflexivity.
 Qed.
 
 (* ---- Remove ---- *)
-Lemma remove_keeps_lbr lbs st n ne : ud_lbr (fst (fst (udfdir_step lbs st (Remove n ne)))) = ud_lbr st.
-Proof.
-  unfold udfdir_step, udfdir_remove. destruct (take_first n (ud_descs st)) as [[t r]|]; [|reflexivity].
-  destruct (fi_isdir t && (fi_isparent t || ne)); [reflexivity|].
-  destruct (fid_remove lbs (ud_info_len st) (zlen (fi_name t))). reflexivity.
-Qed.
-
 Lemma remove_missing st g cs n ne : wf st g cs -> ~ In n (map fst cs) ->
   udfdir_step 2048 st (Remove n ne) = (st, false, 0).
 Proof.
@@ -197,7 +190,7 @@ Lemma remove_present st g cs n d ne : wf st g cs -> In (n, d) cs ->
   (n = [] \/ d && ne = true -> udfdir_step 2048 st (Remove n ne) = (st, false, 0)) /\
   (n <> [] -> d && ne = false ->
    exists st' dl, udfdir_step 2048 st (Remove n ne) = (st', true, - dl) /\
-                  wf st' (g - dl) (remove_name n cs) /\ ud_lbr st' = ud_lbr st /\ 0 <= dl).
+                  wf st' (g - dl) (remove_name n cs) /\ 0 <= dl).
 Proof.
   intros W Hin. pose proof (wf_nodup _ _ _ W) as Hnd.
   pose proof (find_name_present _ _ _ Hnd Hin) as Hf.
@@ -216,7 +209,7 @@ Proof.
       pose proof (clen_sum_nonneg (l1 ++ l2)) as Hs.
       pose proof (fid_remove_delta 2048 (ud_info_len st) (zlen n) ltac:(lia) (zlen_nonneg n) ltac:(lia)) as Hr.
       destruct (fid_remove 2048 (ud_info_len st) (zlen n)) as [info' dl]. destruct Hr as (Hr1 & Hr2 & Hr3).
-      eexists. exists dl. split; [reflexivity|]. split; [|split; [reflexivity|exact Hr3]].
+      eexists. exists dl. split; [reflexivity|]. split; [|exact Hr3].
       rewrite Hrm. constructor; cbn [ud_descs ud_info_len ud_ad_len ud_lbr].
       * reflexivity.
       * rewrite Hcs, map_app in Hnd. cbn [map] in Hnd. apply NoDup_remove_1 in Hnd. rewrite map_app. exact Hnd.
@@ -225,7 +218,7 @@ Proof.
       * rewrite fid_len0. lia.
       * reflexivity.
       * rewrite (wf_g _ _ _ W). lia.
-      * pose proof (wf_lbr _ _ _ W). lia.
+      * reflexivity.
 Qed.
 
 (* ---- every history ---- *)
@@ -286,48 +279,39 @@ Proof.
 Qed.
 
 (* ---- 2. log_block_recorded ---- *)
-Theorem udfdir_lbr ops :
-  let st := fst (udfdir_run ops) in
-  ceiling_div (ud_info_len st) 2048 <= ud_lbr st /\
-  (forall n d, udfdir_accepts st (Add n d) = true ->
-     let st' := fst (udfdir_run (ops ++ [Add n d])) in ud_lbr st' = ceiling_div (ud_info_len st') 2048) /\
-  (forall n ne, ud_lbr (fst (udfdir_run (ops ++ [Remove n ne]))) = ud_lbr st) /\
-  (forall o, udfdir_accepts st o = false -> fst (udfdir_run (ops ++ [o])) = st).
+(* new(0,'dir') leaves 1 with info_len 0; the add of the parent FID assigns ceiling_div(40, 2048) = 1;
+   every accepted Add and every accepted Remove assign ceiling_div(info_len', lbs); a refused
+   operation assigns nothing *)
+Theorem udfdir_lbr_fresh ops :
+  ud_lbr (fst (udfdir_run ops)) = ceiling_div (ud_info_len (fst (udfdir_run ops))) 2048.
+Proof. destruct (run_wf ops) as (cs & W). exact (wf_lbr _ _ _ W). Qed.
+
+Corollary udfdir_lbr_is_granted ops : ud_lbr (fst (udfdir_run ops)) = snd (udfdir_run ops).
+Proof. destruct (run_wf ops) as (cs & W). rewrite (wf_lbr _ _ _ W). symmetry. exact (wf_g _ _ _ W). Qed.
+
+(* a refused operation leaves the whole state (log_block_recorded included) and the grant as they were *)
+Theorem udfdir_refused_unchanged ops o :
+  udfdir_accepts (fst (udfdir_run ops)) o = false -> udfdir_run (ops ++ [o]) = udfdir_run ops.
 Proof.
-  cbv zeta. destruct (run_wf ops) as (cs & W). split; [exact (wf_lbr _ _ _ W)|]. split; [|split].
-  - intros n d Hacc. rewrite run_snoc. destruct (run_step_proj (udfdir_run ops) (Add n d)) as [-> _].
-    unfold udfdir_accepts in Hacc.
-    destruct (name_in_dec n (map fst cs)) as [Hin|Hn].
-    { rewrite (add_refused _ _ _ n d W (or_introl Hin)) in Hacc. discriminate. }
-    destruct (Z_le_gt_dec (zlen n) 254) as [Hl|Hl].
-    + destruct (add_fresh _ _ _ n d W Hn Hl) as (st' & dl & -> & _ & Hlbr & _). exact Hlbr.
-    + assert (Hl' : 254 < zlen n) by lia.
-      rewrite (add_refused _ _ _ n d W (or_intror Hl')) in Hacc. discriminate.
-  - intros n ne. rewrite run_snoc. destruct (run_step_proj (udfdir_run ops) (Remove n ne)) as [-> _].
-    apply remove_keeps_lbr.
-  - intros o Hacc. rewrite run_snoc. destruct (run_step_proj (udfdir_run ops) o) as [-> _].
-    unfold udfdir_accepts in Hacc. unfold udfdir_step in *.
-    destruct o as [n d|n ne].
-    + destruct (255 <? zlen n + 1); [reflexivity|].
-      destruct (udfdir_add 2048 _ _) as [[st' dl]|]; [discriminate|reflexivity].
-    + destruct (udfdir_remove 2048 _ n ne) as [[st' dl]|]; [discriminate|reflexivity].
+  intros Hacc. rewrite run_snoc. unfold run_step, udfdir_accepts in *. destruct (udfdir_run ops) as [st g].
+  cbn [fst snd] in *. unfold udfdir_step in *. destruct o as [n d|n ne].
+  - destruct (255 <? zlen n + 1); [rewrite Z.add_0_r; reflexivity|].
+    destruct (udfdir_add 2048 st _) as [[st' dl]|]; [discriminate|rewrite Z.add_0_r; reflexivity].
+  - destruct (udfdir_remove 2048 st n ne) as [[st' dl]|]; [discriminate|rewrite Z.add_0_r; reflexivity].
 Qed.
 
-(* log_block_recorded is NOT kept equal to the number of blocks of the area: seven 254-byte names
-   take two blocks; after one of them is removed the area needs one block and the File Entry
-   still says two *)
+(* growth past a block boundary and back: seven 254-byte names take two blocks; after one of them
+   is removed the area needs one block and the File Entry says one *)
 Definition lbr_witness : list op :=
   map (fun k => Add (repeat 97 253 ++ [k]) false) [1; 2; 3; 4; 5; 6; 7] ++ [Remove (repeat 97 253 ++ [1]) false].
-Theorem udfdir_lbr_fresh_refuted :
-  exists ops, let st := fst (udfdir_run ops) in ud_lbr st <> ceiling_div (ud_info_len st) 2048.
-Proof. exists lbr_witness. vm_compute. discriminate. Qed.
 Example lbr_witness_values :
   let st := fst (udfdir_run lbr_witness) in
-  (ud_info_len st, ud_lbr st, snd (udfdir_run lbr_witness)) = (1816, 2, 1).
+  (ud_info_len st, ud_lbr st, snd (udfdir_run lbr_witness)) = (1816, 1, 1).
 Proof. vm_compute. reflexivity. Qed.
 
-(* ... but no decision of the bookkeeping reads it: acceptance, the returned delta, fi_descs,
-   info_len and alloc_descs[0] are the same whatever log_block_recorded holds *)
+(* log_block_recorded is write-only for the bookkeeping: acceptance, the returned delta, fi_descs,
+   info_len and alloc_descs[0] are the same whatever it holds (e.g. the value parsed from a foreign
+   image), and an accepted operation overwrites it *)
 Definition set_lbr (st : udfdir) (l : Z) : udfdir := mk_udfdir (ud_descs st) (ud_info_len st) (ud_ad_len st) l.
 Definition core (st : udfdir) := (ud_descs st, ud_info_len st, ud_ad_len st).
 Theorem udfdir_lbr_never_read lbs st l o :
@@ -528,7 +512,7 @@ Example ex_history_probe :
    (1, 1816, 1816, 1); (1, 2112, 2112, 2); (0, 2112, 2112, 2); (0, 2112, 2112, 2); (1, 1816, 1816, 1);
    (1, 1520, 1520, 1); (0, 1520, 1520, 1); (1, 1564, 1564, 1); (0, 1564, 1564, 1); (1, 1860, 1860, 1);
    (1, 2156, 2156, 2); (1, 2112, 2112, 2)] /\
-  run_probe_lbr ex_history = [1; 1; 1; 1; 1; 1; 2; 2; 2; 2; 2; 2; 1; 1; 1; 2; 2] /\
+  run_probe_lbr ex_history = [1; 1; 1; 1; 1; 1; 2; 2; 2; 1; 1; 1; 1; 1; 1; 2; 2] /\
   run_final_fis ex_history = [[]; nm 1; nm 3; nm 4; nm 6; nm 7; nm 2; wide254].
 Proof. vm_compute. repeat split; reflexivity. Qed.
 
@@ -548,6 +532,14 @@ Example ex_area :
   udfdir_tag_locs 5 st = [5; 5; 5; 5] /\ ud_info_len st = 168.
 Proof. vm_compute. repeat split; reflexivity. Qed.
 
+(* the empty directory /d/sub of the same image (data at relative block 7): its parent FID points at
+   the File Entry of /d, relative block 4, with a zero impl_use -- the input (8, 0, 4) *)
+Example ex_area_sub :
+  udfdir_area 7 (fst (udfdir_run [])) [(8, 0, 4)] =
+  Some [1; 1; 2; 0; 193; 0; 0; 0; 252; 162; 24; 0; 7; 0; 0; 0; 1; 0; 10; 0; 0; 8; 0; 0; 4; 0; 0; 0; 0; 0; 0; 0; 0; 0; 0; 0;
+        0; 0; 0; 0].
+Proof. vm_compute. reflexivity. Qed.
+
 (* the harness checker: the second case has a wrong block count in its last observation *)
 Example ex_bad_cases :
   bad_udfdir_cases 0
@@ -555,13 +547,14 @@ Example ex_bad_cases :
       [(1, 80, 80, 1); (0, 80, 80, 1); (0, 80, 80, 1); (1, 40, 40, 1)], [1; 1; 1; 1], [[]]);
      (lbr_witness,
       [(1, 336, 336, 1); (1, 632, 632, 1); (1, 928, 928, 1); (1, 1224, 1224, 1); (1, 1520, 1520, 1);
-       (1, 1816, 1816, 1); (1, 2112, 2112, 2); (1, 1816, 1816, 2)], [1; 1; 1; 1; 1; 1; 2; 2],
+       (1, 1816, 1816, 1); (1, 2112, 2112, 2); (1, 1816, 1816, 2)], [1; 1; 1; 1; 1; 1; 2; 1],
       [[]; nm 2; nm 3; nm 4; nm 5; nm 6; nm 7])] = [1%nat].
 Proof. vm_compute. reflexivity. Qed.
 
 Print Assumptions udfdir_inv.
-Print Assumptions udfdir_lbr.
-Print Assumptions udfdir_lbr_fresh_refuted.
+Print Assumptions udfdir_lbr_fresh.
+Print Assumptions udfdir_lbr_is_granted.
+Print Assumptions udfdir_refused_unchanged.
 Print Assumptions udfdir_lbr_never_read.
 Print Assumptions udfdir_names.
 Print Assumptions udfdir_layout.
